@@ -55,18 +55,18 @@ func main() {
 		fmt.Println(err)
 		os.Exit(2)
 	}
+	ownScratch := false
 	if *scratch == "" {
 		d, err := os.MkdirTemp("", "verif-check-")
 		if err != nil {
 			fmt.Println(err)
 			os.Exit(2)
 		}
-		defer os.RemoveAll(d)
-		*scratch = d
+		*scratch, ownScratch = d, true
 	}
 	code := vrt.Run(ch, vrt.Options{Seed: seed, Tier: *tier, Root: *root, Scratch: *scratch, Replay: *replay, Exe: exe, Workers: *workers})
-	if code != 0 {
-		os.RemoveAll(*scratch)
+	if code != 0 || ownScratch {
+		os.RemoveAll(*scratch) // (os.Exit skips deferred calls)
 	}
 	os.Exit(code)
 }
